@@ -578,6 +578,10 @@ func judge(c *harness.Ctx, id string, st strategy, bs []nb, th int, nodes []*fno
 		n.mu.Lock()
 		at := n.replied
 		n.mu.Unlock()
+		if at == 0 && n.b.Kind != "silent" && n.b.Kind != "hang" {
+			// cancelled before it could answer (the strategy had returned): it would have answered at its scripted latency
+			at = n.lat
+		}
 		measured = append(measured, fmt.Sprintf("%s:%s@%dms", n.b.Kind, n.b.Lat, at.Milliseconds()))
 		switch n.b.Kind {
 		case "silent", "hang":
